@@ -20,6 +20,7 @@
 #include <memory>
 #include <fcntl.h>
 #include <cerrno>
+#include <execinfo.h>
 
 using namespace vf;
 using ref::Q; using ref::Vec; using ref::Cell; using ref::Row; using ref::Z;
@@ -34,6 +35,9 @@ struct ProfT { std::string k; double t0; ProfT(const std::string& k_) : k(k_), t
 static std::vector<CN> CM;                          // rows over (A, B, C, D)
 static std::vector<std::pair<int, int> > PAIRS;     // add_constraints({r1, r2})
 static const int MAXDIM = 4;
+static size_t NBASE = 0;                            // rows [0, NBASE) form the menu of the fresh / incremental explorations
+struct BoxedMenu { int param, box1, box2; std::vector<int> rows; };
+static std::vector<BoxedMenu> BOXED;                // rows of the "boxed" one-shot family, appended to CM
 
 static void build_menus() {
   auto ge = [](std::initializer_list<long> a, long b) { return CN(LE(a, b), ref::GE); };
@@ -65,6 +69,25 @@ static void build_menus() {
   CM.push_back(ge({0, 1, 0, 0}, 0));       // 23  B >= 0            (redundant: implicit non-negativity)
   CM.push_back(ge({2, -1, -2, 0}, -2));    // 24  2A - B >= 2C + 2  (pivot on a coefficient 2 with an integral solution: the tableau keeps denominator 2)
   CM.push_back(ge({0, 1, -1, 0}, 3));      // 25  B >= C - 3        (mixes a variable that is still basic with a parameter)
+  NBASE = CM.size();
+  // "boxed" one-shot family (inequalities only): two variables x, y, one parameter p (at each of the three positions),
+  // x <= 5, y <= 5 and rows  a*x + b*y >= c*p - k  with non-unit variable coefficients, parameter coefficients up to 3 and
+  // constants of both signs: sequences "pivot on a non-unit coefficient, pivot on a scaled 1, cut" occur there.
+  for (int pp = 0; pp < 3; ++pp) {
+    int xv = pp == 0 ? 1 : 0, yv = pp == 2 ? 1 : 2;
+    BoxedMenu bm; bm.param = pp;
+    auto mk = [&](long a, long b, long c, long k) { std::vector<long> v(3, 0); v[xv] = a; v[yv] = b; v[pp] = -c; LE e; e.a = v; e.b = k; return CN(e, ref::GE); };
+    bm.box1 = (int)CM.size(); CM.push_back(mk(-1, 0, 0, 5));
+    bm.box2 = (int)CM.size(); CM.push_back(mk(0, -1, 0, 5));
+    static const long AB[][2] = {{1,0},{0,1},{1,1},{1,-1},{-1,1},{1,2},{2,1},{2,-1},{-1,2},{1,-2},{-2,1},{2,3}};
+    static const long CC[] = {0, 1, 2, 3};
+    static const long KK[] = {-6, -3, -1, 0, 1, 3, 6};
+    for (size_t i = 0; i < sizeof AB / sizeof AB[0]; ++i) for (size_t c = 0; c < 4; ++c) for (size_t k = 0; k < 7; ++k) {
+      if (CC[c] == 0 && KK[k] >= 0 && AB[i][0] >= 0 && AB[i][1] >= 0) continue;      // implied by non-negativity
+      bm.rows.push_back((int)CM.size()); CM.push_back(mk(AB[i][0], AB[i][1], CC[c], KK[k]));
+    }
+    BOXED.push_back(bm);
+  }
   PAIRS.push_back(std::make_pair(3, 4));     // B <= 2A <= B + 1
   PAIRS.push_back(std::make_pair(11, 12));   // A = C as two rows
   PAIRS.push_back(std::make_pair(13, 14));
@@ -216,6 +239,7 @@ static Q eval_le(const E& e, const std::vector<Q>& vals, const Data& d, std::str
 // optional per-node statistics of a batch of spans: node -> (times reached, times its own constraints all held)
 static std::map<const void*, std::pair<long, long> >* NODE_STATS = 0;
 static std::vector<const void*>* FALSE_CHILDREN_TAKEN = 0;     // non-null false children entered by the current span
+static int FLIP_AT = -1;                                        // >= 0: the FLIP_AT-th decision node of the path takes the other child
 static Span span_tree(const PPL::PIP_Tree_Node* node, const Data& d, const std::vector<long>& pv) {
   Span s;
   std::vector<Q> vals(d.dim);
@@ -245,6 +269,7 @@ static Span span_tree(const PPL::PIP_Tree_Node* node, const Data& d, const std::
     }
     if (NODE_STATS && cs.begin() != cs.end()) { std::pair<long, long>& st = (*NODE_STATS)[node]; ++st.first; if (all) ++st.second; }
     if (const PPL::PIP_Decision_Node* dn = node->as_decision()) {
+      if (FLIP_AT >= 0 && s.depth - 1 == FLIP_AT) all = !all;
       const PPL::PIP_Tree_Node* ch = dn->child_node(all);
       if (dn->child_node(true) == 0 && s.defect.empty()) s.defect = "decision node without a true child";
       if (FALSE_CHILDREN_TAKEN && !all && ch != 0) FALSE_CHILDREN_TAKEN->push_back(ch);
@@ -272,7 +297,7 @@ struct Op { Kind k; int arg; };
 static std::vector<Op> OPS;
 static bool solve_like(Kind k) { return k == SOLVE || k == ISSAT; }
 static void build_ops() {
-  for (size_t i = 0; i < CM.size(); ++i) OPS.push_back(Op{AC, (int)i});
+  for (size_t i = 0; i < NBASE; ++i) OPS.push_back(Op{AC, (int)i});
   for (size_t i = 0; i < PAIRS.size(); ++i) OPS.push_back(Op{ACS, (int)i});
   OPS.push_back(Op{ADDV, 1}); OPS.push_back(Op{ADDP, 1});
   for (int i = 0; i < MAXDIM; ++i) OPS.push_back(Op{TOPARAM, i});
@@ -370,14 +395,39 @@ static bool big_with_non_unit_coefficient(const Data& d) {
   }
   return false;
 }
-static std::string hang_trigger(const Data& d) { return d.piv == 1 ? "pivot_row_strategy_max_column" : "none"; }
+static std::string hang_trigger(const Data& d, int rc);
+// the rational relaxation over (x, p) >= 0 keeps some parameter below 1: the region exists only where that parameter is 0
+static bool some_parameter_forced_to_zero(const Data& d) {
+  Cell c(d.dim);
+  for (size_t r = 0; r < d.rows.size(); ++r) { Row rw = CM[d.rows[r]].row(d.dim); if (rw.k == ref::GT) rw.k = ref::GE; c.rows.push_back(rw); }
+  for (int j = 0; j < d.dim; ++j) c.rows.push_back(Row(ref::unit(d.dim, j), Q(0), ref::GE));
+  for (int j = 0; j < d.dim; ++j) if (d.is_param(j) && j != d.big) {
+    ref::Range rg = ref::range_of(c, ref::unit(d.dim, j), Q(0));
+    if (!rg.empty && rg.has_hi && rg.hi < 1) return true;
+  }
+  return false;
+}
 
 // ------------------------------------------------------------------ guard for solves that may not terminate
 // PPL's cooperative cancellation: a CPU-time signal makes `abandon_expensive_computations` point to a throwable and the
 // main loop of PIP_Solution_Node::solve calls maybe_abandon() at every iteration.  The object is discarded afterwards.
 // (A divergence that never reaches maybe_abandon() is caught by Pool's per-step alarm.)
 static double GUARD_S = 0.05, CONFIRM_S = 1.0;
-struct Abandoned : public PPL::Throwable { void throw_me() const { throw *this; } };
+// Where was the computation when it was abandoned?  maybe_abandon() is called from the main loop of
+// PIP_Solution_Node::solve and from the main loop of PIP_Tree_Node::compatibility_check(Matrix&) (integer feasibility of
+// a context by dual simplex + cuts): the return addresses on the stack tell which one did not end.
+static volatile int ABANDONED_IN_CC = 0;
+struct Abandoned : public PPL::Throwable {
+  void throw_me() const {
+    void* bt[48]; int n = backtrace(bt, 48);
+    typedef bool (*CC)(PPL::Matrix<PPL::PIP_Tree_Node::Row>&);
+    CC f = &PPL::PIP_Tree_Node::compatibility_check;
+    const char* lo = reinterpret_cast<const char*>(f);
+    ABANDONED_IN_CC = 0;
+    for (int i = 0; i < n; ++i) { const char* a = static_cast<const char*>(bt[i]); if (a >= lo && a < lo + 0x2b80) ABANDONED_IN_CC = 1; }
+    throw *this;
+  }
+};
 static Abandoned ABANDONED;
 static void on_prof(int) { PPL::abandon_expensive_computations = &ABANDONED; }
 // 0 if f() returned, SIGPROF if abandoned after cpu_s seconds of CPU, 1077 on memory exhaustion
@@ -396,30 +446,47 @@ static int guarded(const std::function<void()>& f, double cpu_s) {
   PPL::abandon_expensive_computations = 0;
   return rc;
 }
-static std::string guard_clause(int rc) { return rc == SIGPROF ? "hang" : rc == 1077 ? "crash:memory-exhausted" : std::string("crash:") + signame(rc); }
+static std::string guard_clause(int rc) { return (rc == SIGPROF || rc == 1090 || rc == 1091 || rc == 1092) ? "hang" : rc == 1077 ? "crash:memory-exhausted" : std::string("crash:") + signame(rc); }
 // Hard guard: the call is first executed in a forked child under a CPU budget (the child is killed by SIGPROF when it
 // is exhausted).  Used where a loop without cancellation points was met: Tableau::is_better_pivot, reached only under
 // PIVOT_ROW_STRATEGY_MAX_COLUMN.  Returns 0 if the child finished.
 static double SANDBOX_S = 0.3;
+// in the sandbox child: first expiry asks for cooperative abandonment and re-arms the timer; the second one kills
+static void on_prof_child(int) {
+  if (PPL::abandon_expensive_computations != 0) { signal(SIGPROF, SIG_DFL); raise(SIGPROF); return; }
+  PPL::abandon_expensive_computations = &ABANDONED;
+  struct itimerval tv; memset(&tv, 0, sizeof tv); tv.it_value.tv_usec = 200000; setitimer(ITIMER_PROF, &tv, 0);
+}
 static int sandbox(const std::function<void()>& f, double cpu_s) {
   fflush(stdout); fflush(stderr);
   pid_t pid = fork();
   if (pid < 0) { perror("fork"); _exit(3); }
   if (pid == 0) {
     alarm(0);
-    signal(SIGPROF, SIG_DFL);
     struct rlimit rl; rl.rlim_cur = rl.rlim_max = 0; setrlimit(RLIMIT_CORE, &rl);
     struct itimerval tv; memset(&tv, 0, sizeof tv);
     tv.it_value.tv_sec = (long)cpu_s; tv.it_value.tv_usec = (long)((cpu_s - (long)cpu_s) * 1e6);
     setitimer(ITIMER_PROF, &tv, 0);
-    try { f(); } catch (const std::bad_alloc&) { _exit(77); } catch (...) { _exit(78); }
+    // inside the hard limit, the cooperative guard first: it also tells where the computation was stuck
+    try {
+      PPL::abandon_expensive_computations = 0;
+      struct sigaction sa; memset(&sa, 0, sizeof sa); sa.sa_handler = on_prof_child; sigaction(SIGPROF, &sa, 0);
+      try { f(); } catch (const Abandoned&) { _exit(ABANDONED_IN_CC ? 90 : 91); }
+    } catch (const std::bad_alloc&) { _exit(77); } catch (...) { _exit(78); }
     _exit(0);
   }
   int st = 0;
   while (waitpid(pid, &st, 0) < 0 && errno == EINTR) {}
   if (WIFEXITED(st) && WEXITSTATUS(st) == 0) return 0;
-  if (WIFSIGNALED(st)) return WTERMSIG(st);
+  if (WIFSIGNALED(st)) return WTERMSIG(st) == SIGPROF ? 1092 : WTERMSIG(st);
   return 1000 + WEXITSTATUS(st);
+}
+static std::string hang_trigger(const Data& d, int rc) {
+  // rc: SIGPROF = abandoned by the in-process guard (location in ABANDONED_IN_CC); 1090 / 1091 = abandoned in the sandbox
+  // child inside / outside compatibility_check; 1092 = the child had to be killed (loop without cancellation points)
+  if (rc == 1090 || (rc == SIGPROF && ABANDONED_IN_CC)) return "abandoned_inside_compatibility_check";
+  if (rc == 1092 && d.piv == 1) return "pivot_row_strategy_max_column";
+  return "none";
 }
 // cooperative guard everywhere, hard guard in addition where needed
 static int run_solve_guarded(bool hard, const std::function<void()>& probe, const std::function<void()>& real, bool confirm) {
@@ -489,17 +556,39 @@ static bool false_child_only_where_unfeasible(const PPL::PIP_Tree_Node* root, co
   return false;
 }
 
-// Last-resort necessary condition of the same defect: the "SWAP BRANCHES" exit only exists once the solver has split,
-// and it always leaves its own test (the complement of the unfeasible branch's) in the tree: the tree has at least one
-// node with a condition.  (The lost condition itself is, by nature of the defect, no longer there to be seen.)
-static int max_conditions_on_path(const PPL::PIP_Tree_Node* n) {
-  if (n == 0) return 0;
-  int here = n->constraints().begin() != n->constraints().end() ? 1 : 0;
-  const PPL::PIP_Decision_Node* dn = n->as_decision();
-  if (dn == 0) return here;
-  return here + std::max(max_conditions_on_path(dn->child_node(true)), max_conditions_on_path(dn->child_node(false)));
+static int lexcmp(const std::vector<Q>& a, const std::vector<Z>& b);
+// Third symptom predicate of the same defect.  The "SWAP BRANCHES" exit overwrites the condition of ONE node (a decision
+// constraint is replaced, or a solution node loses its own condition); every other node, and every solution expression,
+// is still right.  So each wrong answer must be repaired by ONE change of route: either the leaf that was reached should
+// not have been (the reference says bottom), or taking the other child at exactly one decision node of the path yields
+// the reference's answer.  Wrong VALUES (a point that no leaf of the tree produces for that valuation) are not explained.
+static bool wrong_answers_explained_by_one_condition(const PPL::PIP_Tree_Node* root, const Data& d) {
+  std::vector<int> ps; for (int i = 0; i < d.dim; ++i) if (d.is_param(i) && i != d.big) ps.push_back(i);
+  std::vector<long> cur(d.dim, 0); if (d.big >= 0) cur[d.big] = BIG_M[0];
+  long hi = ps.size() <= 2 ? 12 : 6;
+  bool all_explained = true; long wrong = 0;
+  auto same = [](const Span& s, const RefEntry& re) { if (s.bottom || !re.feasible) return s.bottom == !re.feasible; return lexcmp(s.x, re.x) == 0; };
+  std::function<void(size_t)> rec = [&](size_t k) {
+    if (!all_explained) return;
+    if (k == ps.size()) {
+      RefEntry re = ref_entry(d, cur);
+      if (!re.context_ok) return;
+      Span s = span_tree(root, d, cur);
+      if (!s.defect.empty()) { all_explained = false; return; }
+      if (same(s, re)) return;
+      ++wrong;
+      if (!re.feasible) return;                      // a leaf was reached that should not have been
+      bool fixed = false;
+      for (int f = 0; f < s.depth - 1 && !fixed; ++f) { FLIP_AT = f; Span t = span_tree(root, d, cur); FLIP_AT = -1; if (t.defect.empty() && same(t, re)) fixed = true; }
+      if (!fixed) all_explained = false;
+      return;
+    }
+    for (long x = 0; x <= hi; ++x) { cur[ps[k]] = x; rec(k + 1); }
+  };
+  rec(0);
+  FLIP_AT = -1;
+  return all_explained && wrong > 0;
 }
-
 // ------------------------------------------------------------------ the oracle for one solved problem
 struct Reporter {
   std::string input; bool live;
@@ -559,7 +648,8 @@ static bool judge(const PIP& p, int status, const Data& d, const Reporter& rp, c
     if (bounded_trig.empty()) {
       std::set<int> distinct(d.rows.begin(), d.rows.end());
       // the defect repaired by 41459f2 showed with <= 3 rows; what is left of it needs at least 4
-      bounded_trig = !some_parameter_bounded(d) ? "none" : distinct.size() >= 4 ? "feasible_region_bounds_a_parameter_with_4_or_more_rows" : "feasible_region_bounds_a_parameter";
+      bounded_trig = !some_parameter_bounded(d) ? "none" : distinct.size() < 4 ? "feasible_region_bounds_a_parameter"
+                   : some_parameter_forced_to_zero(d) ? "region_forces_a_parameter_to_zero_with_4_or_more_rows" : "feasible_region_bounds_a_parameter_with_4_or_more_rows";
     }
     return bounded_trig;
   };
@@ -606,7 +696,7 @@ static bool judge(const PIP& p, int status, const Data& d, const Reporter& rp, c
       if (trig[b0] == "none" && big_with_non_unit_coefficient(d)) trig[b0] = "big_parameter_in_row_with_non_unit_variable_coefficient";
       if (rp.first_solve && status == 1 && trig[b0] == "none" && clause[b0].compare(0, 5, "tree:") == 0 && tree_has_dead_condition(root, d)) trig[b0] = "tree_node_condition_never_true_when_reached";
       if (rp.first_solve && status == 1 && trig[b0] == "none" && clause[b0].compare(0, 5, "tree:") == 0) { RefGuard g; if (false_child_only_where_unfeasible(root, d)) trig[b0] = "false_child_entered_only_where_unfeasible"; }
-      if (rp.first_solve && status == 1 && trig[b0] == "none" && clause[b0].compare(0, 5, "tree:") == 0 && clause[b0] != "tree:malformed" && max_conditions_on_path(root) >= 1) trig[b0] = "tree_with_conditions";
+      if (rp.first_solve && status == 1 && trig[b0] == "none" && clause[b0].compare(0, 5, "tree:") == 0 && clause[b0] != "tree:malformed") { RefGuard g; if (wrong_answers_explained_by_one_condition(root, d)) trig[b0] = "wrong_answers_repaired_by_one_lost_or_flipped_condition"; }
       rp.viol(site, clause[b0], trig[b0], obs[b0], exp[b0], dt);
       ok = false;
       break;          // one finding per judged problem: the first valuation that fails
@@ -642,6 +732,8 @@ static std::vector<Layout> LAYOUTS;
 struct FreshCase { int layout; std::vector<int> rows; };
 static std::vector<FreshCase> FRESH;
 static const int FRESH_BATCH = 8;
+static int NSTRAT = 6;          // strategy combinations tried per fresh problem (the first NSTRAT of cutting x pivot-row)
+static bool WITH_ADD_ROUTE = true;
 
 static Data fresh_data(const FreshCase& fc, int strat) {
   Data d; const Layout& l = LAYOUTS[fc.layout];
@@ -653,6 +745,7 @@ static void run_fresh_item(long long item, long long sub_start) {
   size_t lo = (size_t)item * FRESH_BATCH, hi = std::min(FRESH.size(), lo + FRESH_BATCH);
   long long sub = 0;
   for (size_t ci = lo; ci < hi; ++ci) for (int strat = 0; strat < 6; ++strat) for (int ctor = 1; ctor >= 0; --ctor) {
+    if (strat >= NSTRAT || (ctor == 0 && !WITH_ADD_ROUTE)) { ++sub; continue; }
     long long my = sub++;
     if (only >= 0 && my > only) return;
     if (!pool().want(my, sub_start)) continue;
@@ -671,11 +764,12 @@ static void run_fresh_item(long long item, long long sub_start) {
     count(CNT_SOLVES); count(CNT_TRANS); count(CNT_FRESH); count(CNT_STATES);
     if (rc) {
       count(CNT_HANGS);
-      std::string trig = hang_trigger(d);
-      if (violcap().admit("hang|" + guard_clause(rc) + "|" + trig)) {
+      std::string trig = hang_trigger(d, rc);
+      if (violcap().admit("hang|" + guard_clause(rc))) {
         // re-run alone with a much larger budget before calling it a hang
         std::unique_ptr<PIP> q = build_fresh(d, ctor_b);
         int rc2 = run_solve_guarded(d.piv == 1, [&]() { std::unique_ptr<PIP> t = build_fresh(d, ctor_b); t->solve(); }, [&]() { q->solve(); }, true);
+        if (rc2 && trig == "none") trig = hang_trigger(d, rc2);      // the location of either run
         if (rc2) report_violation("PIP_Problem::solve", guard_clause(rc2), trig, rp.input, guard_clause(rc2) + " (no answer within " + std::to_string(d.piv == 1 ? SANDBOX_S * 10 : CONFIRM_S) + " s CPU, alone)", "an answer");
       }
       continue;
@@ -854,10 +948,11 @@ static void run_incr_item(long long item, long long sub_start) {
         if (rc) {
           if (live) {
             count(CNT_HANGS);
-            std::string trig = hang_trigger(d1);
-            if (violcap().admit("hang|" + guard_clause(rc) + "|" + trig)) {
+            std::string trig = hang_trigger(d1, rc);
+            if (violcap().admit("hang|" + guard_clause(rc))) {
               std::unique_ptr<PIP> q(new PIP(*src.p)); Data dq = src.d;
               int rc2 = run_solve_guarded(src.d.piv == 1, [&]() { std::unique_ptr<PIP> t(new PIP(*src.p)); Data dt = src.d; apply(t, dt, o); }, [&]() { apply(q, dq, o); }, true);
+              if (rc2 && trig == "none") trig = hang_trigger(d1, rc2);
               if (rc2) report_violation(op_site(o.k), guard_clause(rc2), trig, input_json(it.init, src.rec, opi, d1), guard_clause(rc2) + " (no answer within " + std::to_string(src.d.piv == 1 ? SANDBOX_S * 10 : CONFIRM_S) + " s CPU, alone)", "an answer");
             }
           }
@@ -1011,6 +1106,8 @@ int main(int argc, char** argv) {
   int K = atoi(ARGS.opt("--rows", "2").c_str());
   DEPTH = atoi(ARGS.opt("--depth", "3").c_str());
   bool with_big = !ARGS.has("--no-big");
+  NSTRAT = atoi(ARGS.opt("--strategies", "6").c_str());
+  if (mode == "boxed") WITH_ADD_ROUTE = false;
   double t0 = now_s();
   if (!ARGS.replay.empty()) return replay(ARGS.replay);
   { std::string msg; int fl = ref::milp_selftest(&msg);
@@ -1047,7 +1144,7 @@ int main(int argc, char** argv) {
   if (mode == "fresh") {
     for (size_t l = 0; l < LAYOUTS.size(); ++l) {
       std::vector<int> fit;
-      for (size_t r = 0; r < CM.size(); ++r) if (CM[r].e.dim() <= LAYOUTS[l].dim) fit.push_back((int)r);
+      for (size_t r = 0; r < NBASE; ++r) if (CM[r].e.dim() <= LAYOUTS[l].dim) fit.push_back((int)r);
       int kk = l < n_plain ? K : std::min(K, 2);
       // row sets of size 0..kk in menu order
       std::function<void(size_t, std::vector<int>&)> rec = [&](size_t from, std::vector<int>& cur) {
@@ -1064,7 +1161,23 @@ int main(int argc, char** argv) {
     nitems = (long long)((FRESH.size() + FRESH_BATCH - 1) / FRESH_BATCH);
     fn = [&](long long item, long long sub_start) { run_fresh_item(item, sub_start); };
     bound = "fresh problems: " + std::to_string(LAYOUTS.size()) + " layouts (dimension " + std::to_string(fresh_mindim) + ".." + std::to_string(fresh_maxdim) + ", <= 2 variables, <= 2 parameters" + (with_big ? ", plus the last parameter as big parameter" : "") +
-            "), every row set of size <= " + std::to_string(K) + " of a menu of " + std::to_string(CM.size()) + " rows (size <= 2 with a big parameter), 3 cutting x 2 pivot-row strategies, built by the constructor (and once by add_constraint); parameter window {0.." + std::to_string(WINDOW_HI) + "}^k, big parameter at 64/129/260";
+            "), every row set of size <= " + std::to_string(K) + " of a menu of " + std::to_string(NBASE) + " rows (size <= 2 with a big parameter), 3 cutting x 2 pivot-row strategies, built by the constructor (and once by add_constraint); parameter window {0.." + std::to_string(WINDOW_HI) + "}^k, big parameter at 64/129/260";
+  } else if (mode == "boxed") {
+    int nlay = atoi(ARGS.opt("--layouts", "3").c_str());
+    LAYOUTS.clear();
+    for (int l = 0; l < nlay && l < (int)BOXED.size(); ++l) {
+      const BoxedMenu& bm = BOXED[l];
+      LAYOUTS.push_back(Layout{3, 1u << bm.param, -1});
+      for (size_t i = 0; i < bm.rows.size(); ++i) for (size_t j = i + 1; j < bm.rows.size(); ++j)
+        FRESH.push_back(FreshCase{l, {bm.box1, bm.box2, bm.rows[i], bm.rows[j]}});
+    }
+    { std::vector<FreshCase> sh(FRESH.size()); size_t n = FRESH.size(), stride = 7919;
+      for (size_t i = 0; i < n; ++i) sh[i] = FRESH[(i * stride) % n];
+      if (n > 1 && std::__gcd(stride, n) == 1) FRESH.swap(sh); }
+    nitems = (long long)((FRESH.size() + FRESH_BATCH - 1) / FRESH_BATCH);
+    fn = [&](long long item, long long sub_start) { run_fresh_item(item, sub_start); };
+    bound = "boxed one-shot problems: 2 variables x, y and 1 parameter p (" + std::to_string(LAYOUTS.size()) + " positions of p), rows x <= 5, y <= 5 and EVERY pair of a menu of " + std::to_string(BOXED[0].rows.size()) +
+            " rows a*x + b*y >= c*p - k (a, b in -2..3, c in 0..3, k in {-6,-3,-1,0,1,3,6}), " + std::to_string(NSTRAT) + " strategy combinations, built by the constructor; parameter window {0.." + std::to_string(WINDOW_HI) + "}";
   } else {
     // initial problems for the histories: every plain layout with no row, plus a few one-row problems
     for (size_t l = 0; l < n_plain; ++l) { Init in; in.d.dim = LAYOUTS[l].dim; in.d.params = LAYOUTS[l].params; INITS.push_back(in); }
@@ -1082,7 +1195,7 @@ int main(int argc, char** argv) {
     nitems = (long long)ITEMS.size();
     fn = [&](long long item, long long sub_start) { run_incr_item(item, sub_start); };
     bound = "histories of depth <= " + std::to_string(DEPTH) + " (+ terminal solve) below " + std::to_string(INITS.size()) + " initial problems; alphabet of " + std::to_string(OPS.size()) +
-            " operations (" + std::to_string(CM.size()) + " rows, add dimensions / parameters, 5 strategy values, big parameter, solve, is_satisfiable, copy, assign, clear); dimension <= 4, <= 3 variables, <= 3 parameters; states merged by ascii_dump per (init, first op)";
+            " operations (" + std::to_string(NBASE) + " rows, add dimensions / parameters, 5 strategy values, big parameter, solve, is_satisfiable, copy, assign, clear); dimension <= 4, <= 3 variables, <= 3 parameters; states merged by ascii_dump per (init, first op)";
   }
   Pool::CrashFn cf = [&](long long item, long long sub, int sig, bool confirmed) {
     if (!confirmed) return;
@@ -1110,7 +1223,7 @@ int main(int argc, char** argv) {
   pool().run(nitems, ARGS.jobs, fn, cf, ARGS, step_timeout);
   bool complete = counter(CNT_SKIPPED) == 0 && counter(CNT_REFCRASH) == 0;
   std::vector<std::string> samples;
-  if (mode == "fresh") { for (size_t i = 0; i < FRESH.size(); i += std::max<size_t>(1, FRESH.size() / 3)) samples.push_back(data_json(fresh_data(FRESH[i], (int)(i % 6)))); }
+  if (mode != "incremental") { for (size_t i = 0; i < FRESH.size(); i += std::max<size_t>(1, FRESH.size() / 3)) samples.push_back(data_json(fresh_data(FRESH[i], (int)(i % 6)))); }
   else {
     // histories of length DEPTH that the exploration certainly executed (every enabled operation is applied at every depth)
     std::vector<std::string> h1 = {jstr(op_name(OPS[7])), jstr("solve()"), jstr("add_space_dimensions_and_embed(1, 0)"), jstr("solve()")};
